@@ -19,6 +19,7 @@ import DisjointImpls.Lemmas.RevSubLemmas
 import DisjointImpls.Lemmas.GroupLemmas
 import DisjointImpls.Lemmas.FlatOrder
 import DisjointImpls.Props.C11
+import DisjointImpls.Lemmas.EndToEnd
 open DI
 
 def rToSx : R → Sx
@@ -186,7 +187,14 @@ def handle (cmd : String) (args : List Sx) : Sx :=
           -- hypothesis of C11_partition_acyclic evaluated on this input, and the conclusion of C11_partition_of_trace
           boolSx (acyclicB items), boolSx (traceCovers items),
           -- hypotheses of C05_flat_order_free_exec (acceptance and families do not depend on the block order)
-          boolSx (noNesting items), boolSx (flatWF items)]
+          boolSx (noNesting items), boolSx (flatWF items),
+          -- hypotheses and conclusion of C02_end_to_end_flat_hypotheses, per family: flatGroupOK, hdrCoversB, memberOK of every
+          -- member, thetaCoversB of every member (familyOfGroup = mkFamily of the wire encoding: C02_familyOfGroup_is_mkFamily)
+          .list (groups.map (fun e =>
+            let F := familyOfGroup [] e
+            .list [boolSx (flatGroupOK e), boolSx (hdrCoversB F), boolSx (F.members.all (fun m => memberOK F m)),
+                   boolSx (F.members.all (fun m => thetaCoversB F m))])),
+          boolSx (flatInputOK items)]
       | .unableToForm id => .list [.sym "unable", id.toSx, boolSx (noNesting items), boolSx (flatWF items)]
       | .panic e => .list [.sym "panic", .str (match e with | .unwrapNone => "unwrap-none" | .fuel => "fuel"),
           boolSx (noNesting items), boolSx (flatWF items)]
